@@ -4,6 +4,15 @@
 open Model
 open Vio
 
+(* indices printed by the implementation are small; anything else (e.g. garbage read past a buffer)
+   is reported as a failing input instead of being converted to a unary Coq nat *)
+let next_nat (c : cursor) : nat =
+  let t = next c in
+  match int_of_string_opt t with
+  | Some n when n >= 0 && n <= 100000 -> nat_of_int n
+  | _ -> oracle_fail "sample_in_range" "sampleAction" ("index out of range: " ^ t)
+let next_nats c = next_list c next_nat
+
 let tol = q_of_ints 1 1000000000          (* 1e-9: slack for sums of rounded doubles *)
 let ioN = int_of_nat
 let nat_list_eq a b = List.map ioN a = List.map ioN b
